@@ -130,7 +130,7 @@ func footprintCheck(before *deephash.Snapshot, f func()) (violations []string, w
 		writes++
 		switch e.Kind {
 		case "gwrite":
-			violations = append(violations, "write of a package-level variable at "+siteString(e.Site))
+			// a write to package-level state does not change the operand; whether it is safe is C17's subject
 		case "mapstore":
 			if before.HasMap(e.Addr) {
 				violations = append(violations, "store into a map reachable from the operand at "+siteString(e.Site))
